@@ -18,6 +18,7 @@ EXPLANATION = (
     "threshold); votes whose expiry is not after `now` are skipped before they are counted; a minimum below 2 is rejected by "
     "IpVote::new and ConfigBuilder::enr_peer_update_min, and the service builds IpVote from config.enr_peer_update_min. R4: "
     "every successful update is announced with Event::SocketUpdated(the address just set).")
+EXPLANATION += (" Added while testing: R2 also requires every eligible PONG to reach IpVote::insert; R3 also checks the shape round(max_count * (1 - CLEAR_MAJORITY_PERCENTAGE)) and pins the constant to the pinned tree's 0.3 (a reference value: a deliberate retune needs the reference updated).")
 NOT_DECIDED = ["the max / second-max bookkeeping of the vote count (value-level; the crate's quickcheck properties sample it)",
                "sequence-number increase and signature validity are the enr crate's contract for set_udp_socket (trusted)"]
 TRUSTED = ["enr::Enr::set_udp_socket bumps seq and re-signs", "HashMap keyed by NodeId keeps one entry per key"]
